@@ -20,6 +20,7 @@ from __future__ import annotations
 
 import itertools
 import logging
+import os
 
 from vlib import destructure_model as dm
 from vlib import env
@@ -30,22 +31,25 @@ PROPERTY = "C09"
 LEVEL = "model_checking"
 BOUNDS = {
     "quick": (
-        "destructuring: the symbol pattern, ALL depth-1 patterns (12 vector patterns: 0-2 positional x [& rest] x [:as]; 552 map patterns: "
-        "every multiset of <= 2 entries over 22 entry variants {:keys [n], :keys [p/n], :p/keys [n], :strs [n], :syms [n], :syms [p/n], "
-        ":p/syms [n], n :k, n \"s\", n 'q, n 0} x {no default, :or default} x [:as]); depth 2 = 16 one-hole contexts x 58 depth-1 patterns "
-        "(maps of <= 1 entry) + all 202 one-hole contexts (hole at any positional / rest / entry position) x 4 patterns + 2 two-hole "
-        "contexts x 8 x 8 patterns; every pattern at 4 binding sites (let, fn parameter, loop+recur, fn rest parameter) as form and as "
-        "macroexpansion, on 12-60 values each.  syntax-quote: all 22 leaves alone; all list / vector / set / map templates of width <= 2 "
-        "over 12 main leaves (+ 10 further leaves alone and next to 3 siblings); depth 2 = every one of 110 inner collections alone and next "
-        "to each of 4 siblings at every position of every outer collection type; each template read in 3 namespace states, called with 3 "
-        "value variants while a 4th namespace is current, evaluable ones also evaluated there"
+        "destructuring, 2,037 patterns: the symbol pattern; ALL depth-1 patterns = 12 vector patterns (0-2 positional x [& rest] x [:as]) + 552 "
+        "map patterns (every multiset of <= 2 entries over 22 entry variants {:keys [n], :keys [p/n], :p/keys [n], :strs [n], :syms [n], "
+        ":syms [p/n], :p/syms [n], n :k, n \"s\", n 'q, n 0} x {no default, :or default}, x [:as]); depth 2 = all 202 one-hole contexts (hole at "
+        "any positional / rest / entry position of a depth-1 pattern) x 2 patterns + 2 two-hole contexts x 8 x 8 patterns (532) + 16 contexts x "
+        "58 depth-1 patterns (896); 44 patterns with an effectful :or default.  Binding sites: let, fn parameter, loop with one recur, fn rest "
+        "parameter (keyword arguments for map patterns), each as form and as macroexpansion, for the 1-entry patterns; let + fn (+ macroexpansion "
+        "at let) for 2-entry maps; 4 sites (+ macroexpansion at let) for the 532; let only for the 896.  12-60 values per pattern and site.  "
+        "syntax-quote, 2,398 templates: 22 leaves alone; all list / vector / set / map templates of width <= 2 over 12 main leaves (538) + 10 "
+        "further leaves alone and next to 3 siblings (240); depth 2 = 17 one-hole contexts (alone, before / after x# and ~@s) x 94 inner "
+        "collections; each read in 3 namespace states (+ a second read for templates with gensyms), called with 3 value variants while a 4th "
+        "namespace is current, evaluable ones also evaluated there"
     ),
     "thorough": (
-        "as quick, plus destructuring depth 2 = all 202 contexts x 58 patterns + 16 contexts x all 564 depth-1 patterns; depth 3 = 16 x 16 "
-        "contexts x 58 patterns + 6 x 6 contexts x 564 patterns + 202 x 6 contexts x 4 patterns (macroexpansion compared at the let site "
-        "for depth 3).  syntax-quote: width-3 lists / vectors / sets and 2-entry maps over the 12 main leaves; depth 2 = all 538 depth-1 "
-        "collections of width <= 2 as inner collection, alone and next to each of the 12 main leaves at every position; depth 3 = 31 outer "
-        "contexts x 31 middle contexts x 110 inner collections"
+        "destructuring, 59,285 patterns: depth <= 1 as quick (all 4 sites, form and macroexpansion); depth 2 = 202 contexts x 58 depth-1 "
+        "patterns + two-hole contexts (11,844; 4 sites + macroexpansion at let) + 16 contexts x all 564 depth-1 patterns (8,096; let + fn + "
+        "macroexpansion at let); depth 3 = 16 x 16 contexts x 58 patterns + 202 x 6 contexts x 4 patterns (19,440) + 6 x 6 contexts x 564 "
+        "patterns (19,296), at the let site.  syntax-quote, 41,326 templates: depth 1 adds width-3 lists / vectors / sets over the 12 main "
+        "leaves and 2-entry maps over 6 leaves (5,534); depth 2 = 45 contexts (alone, before / after each of 6 siblings) x all 538 depth-1 "
+        "collections of width <= 2 (24,210); depth 3 = 17 x 17 contexts x 40 collections of width <= 1 (11,560)"
     ),
 }
 RULE = (
@@ -256,8 +260,8 @@ PLAN = {
         "effects": (ALL_SITES, ALL_SITES),
         "depth1-pairs": (ALL_SITES, ALL_SITES),
         "depth2-allctx": (ALL_SITES, ("let",)),
-        "depth2-ctx16": (ALL_SITES, ("let",)),
-        "depth3-ctx16": (("let",), ("let",)),
+        "depth2-ctx16": (("let", "fn"), ("let",)),
+        "depth3-ctx16": (("let",), ()),
         "depth3-lean": (("let",), ()),
     },
 }
@@ -541,6 +545,7 @@ EXTRA = [
 ]  # fmt: skip
 SIB3 = [["gs", "x"], ["splice", 0], ["sym", "loc"]]
 SIB2 = [["gs", "x"], ["splice", 0]]
+SIB6 = SIB2 + [["sym", "loc"], ["uq", ["param", 0]], ["sym", "vector"], ["sym", "if"]]
 LEANL = [["sym", "loc"], ["gs", "x"], ["uq", ["param", 0]], ["splice", 0]]
 TYPES = ("list", "vec", "set", "map")
 
@@ -616,11 +621,11 @@ def template_universe(tier):
     if tier == "quick":
         d2 = [tfill(c, i) for c in contexts(SIB2) for i in inner110]
     else:
-        d2 = [tfill(c, i) for c in contexts(MAIN) for i in colls(MAIN, (0, 1, 2))]
+        d2 = [tfill(c, i) for c in contexts(SIB6) for i in colls(MAIN, (0, 1, 2))]
     fams.append(("depth2", d2))
     if tier == "thorough":
         cs = contexts(SIB2)
-        fams.append(("depth3", [tfill(c, tfill(c2, i)) for c in cs for c2 in cs for i in inner110]))
+        fams.append(("depth3", [tfill(c, tfill(c2, i)) for c in cs for c2 in cs for i in colls(MAIN, (0, 1))]))
     seen = set()
     out = []
     for fam, ts in fams:
@@ -793,13 +798,12 @@ def check_template(res, fam, t, only=None, batch=None):
             if real_exc:
                 res.fail("expansion-raises", case, exc=real_exc)
                 continue
-            g, used, log = {}, set(), []
-            ok = sq.match(real, exp, g, used, log)
-            res.outcomes.add((t[0], sname, vi, ok, len(log)))
-            if not ok:
+            g = sq.match(real, exp)
+            log = sorted(g.items()) if g is not None else []
+            res.outcomes.add((t[0], sname, vi, g is not None, len(log)))
+            if g is None:
                 res.fail("expansion-mismatch", case, got=brief(real), expected=describe(exp))
                 continue
-            # gensyms must not collide with any other symbol of the template
             if first_log is None:
                 first_log = log
                 names = {n for _, n in log}
@@ -808,7 +812,7 @@ def check_template(res, fam, t, only=None, batch=None):
                     res.fail("gensym-not-fresh", case, reused=sorted(stale))
                 st["seen"] |= names
             else:
-                if sorted(log) == sorted(first_log):
+                if log == first_log:
                     st["same_across_calls"] += 1 if log else 0
                 else:
                     st["differs_across_calls"] += 1
@@ -831,7 +835,12 @@ def check_template(res, fam, t, only=None, batch=None):
                     state["ns"].unmap(zzz)
                 res.evaluations += 1
                 res.part("syntax-quote/evaluated-in-foreign-ns", cases=1)
-                if got_exc or not (type(got) is type(want) and env.core_fn("=")(got, want)):
+                if got_exc is None and callable(want) and hasattr(want, "__qualname__") and want is not got:
+                    # a fresh closure (e.g. the transducer `(map f)`): only its origin can be compared
+                    same = getattr(got, "__qualname__", None) == want.__qualname__
+                else:
+                    same = got_exc is None and type(got) is type(want) and env.core_fn("=")(got, want)
+                if not same:
                     res.fail("hygiene", case, got=got_exc or brief(got), expected=brief(want), form=brief(real))
 
 
@@ -902,19 +911,32 @@ def s_shard(arg):
 # ============================================================================================================================
 
 
+def both(arg):
+    import resource
+    import time
+
+    t0 = time.time()
+    r = d_shard(arg)
+    t1 = time.time()
+    r.merge(s_shard(arg))
+    if os.environ.get("VERIF_C09_TIMING"):
+        ru = resource.getrusage(resource.RUSAGE_SELF)
+        r.notes.append(f"shard {arg[1]}: destructure {t1 - t0:.1f}s syntax-quote {time.time() - t1:.1f}s user {ru.ru_utime:.1f} sys {ru.ru_stime:.1f} minflt {ru.ru_minflt}")
+    return r.compact()
+
+
 def worker(arg):
-    return d_shard(arg[1:]) if arg[0] == "d" else s_shard(arg[1:])
+    """One shard = the idx-th residue class of both universes: a forked child pays seconds of copy-on-write page faults for
+    the inherited heap, so there is exactly one child per worker (env.parallel runs it under one large interpreter frame)."""
+    return both(arg)
 
 
 def run(tier, seed):
     res = Result()
-    w = env.ncores()
-    nd = w * 6
-    ns_ = w * 2
     res.part("destructure/universe", patterns=len(get_universe("d", tier)))
     res.part("syntax-quote/universe", templates=len(get_universe("s", tier)))
-    shards = [("d", tier, (i + seed) % nd, nd) for i in range(nd)] + [("s", tier, (i + seed) % ns_, ns_) for i in range(ns_)]
-    # interleave so that the long destructuring shards start first
+    n = env.ncores()
+    shards = [(tier, (i + seed) % n, n) for i in range(n)]
     for r in env.parallel(worker, shards):
         res.merge(r)
     return res
